@@ -1,6 +1,7 @@
 import AslProofs.ArrayRefine
 import AslProofs.ArraySpecLemmas
 import AslProofs.ArrayQsort
+import AslProofs.ArrayQsortTotal
 /-!
 # C01 — Array, Stack and Queue behave as a sequence for every operation history
 
@@ -14,7 +15,8 @@ no reference count, no storage).  Helper lemmas: `AslProofs/Array*.lean`.
   compute the list functions `take/++/filter/…` — for every block, every capacity, every argument in range.
 * `array_refines_seq_partial`: every finite history, through any handles and clones, in which no operation
   increases the capacity of a block whose `rc > 1`, produces on the model exactly the results and exactly the
-  per-handle `(elements, rc)` views of the reference semantics, and never leaves live storage.
+  per-handle `(elements, rc)` views of the reference semantics, and never leaves live storage
+  (`quicksort_total` discharges the in-bounds obligation of `sort`).
 * `array_full_counterexample`: without that hypothesis the statement is false (known finding `shared-growth`).
 * `lifecycle`: live objects = total length of live blocks in every reachable state; all handles dropped ⇒ no
   block left and no live object.
@@ -61,13 +63,14 @@ example : Rep (⟨[some 1, some 2, some 3], 3, 1, 3, false⟩ : BS Nat) [1, 2, 3
 def array_refines_seq_full [DecidableEq α] (E : Elem α) : Prop :=
   ∀ ops : List (Op α), ∃ st', run E St.init ops = some (st', (specRun E Sp.init ops).2)
 
-/-- For every finite history in which no operation increases the capacity of a block whose `rc > 1`
-(and every `sort` terminates inside its sequence — see `quicksort_full`), the model never leaves live
-storage and every call result and every handle's `(elements, rc())` equal those of the reference semantics. -/
-theorem array_refines_seq_partial [DecidableEq α] (E : Elem α) (ops : List (Op α))
-    (hsafe : AllSafe E St.init Sp.init ops) :
+/-- For every finite history in which no operation increases the capacity of a block whose `rc > 1`, and every
+element type whose `<` is irreflexive, the model never leaves live storage (`run` is `some`: no access to a
+released block, an unconstructed cell or a cell outside the block, in `sort` as everywhere else) and every call
+result and every handle's `(elements, rc())` equal those of the reference semantics. -/
+theorem array_refines_seq_partial [DecidableEq α] (E : Elem α) (hirr : ∀ x, E.lt x x = false) (ops : List (Op α))
+    (hsafe : AllSafe E St.init ops) :
     ∃ st', run E St.init ops = some (st', (specRun E Sp.init ops).2) ∧ Good st' (specRun E Sp.init ops).1 :=
-  run_sim E ops good_init hsafe
+  run_sim E hirr ops good_init hsafe
 
 /-- what the driver runs: an operation is skipped exactly when the guard holds, otherwise it is `step` -/
 theorem driver_step [DecidableEq α] (E : Elem α) (st : St α) (op : Op α) :
@@ -90,37 +93,34 @@ theorem array_full_counterexample : ¬ array_refines_seq_full intE := by
 /-- the guard of the driver rejects exactly the offending operation of that history -/
 example : guard intE ((run intE St.init (sharedGrowth.take 5)).get (by decide)).1 (.app 0 3) = true := by decide
 
-/-- a checkable form of the hypothesis for sort-free histories -/
-def allSafeB [DecidableEq α] (E : Elem α) : St α → Sp α → List (Op α) → Bool
-  | _, _, [] => true
-  | st, sp, op :: ops =>
-    !guard E st (normOp op) && (match normOp op with | .sort _ _ => false | _ => true) &&
+/-- the hypothesis as a computation (what the driver evaluates before every operation) -/
+def allSafeB [DecidableEq α] (E : Elem α) : St α → List (Op α) → Bool
+  | _, [] => true
+  | st, op :: ops =>
+    !guard E st (normOp op) &&
       match step E st (normOp op) with
-      | some r => allSafeB E r.1 (specStep E sp (normOp op)).1 ops
+      | some r => allSafeB E r.1 ops
       | none => true
 
-theorem allSafeB_sound [DecidableEq α] (E : Elem α) : ∀ (ops : List (Op α)) (st : St α) (sp : Sp α),
-    allSafeB E st sp ops = true → AllSafe E st sp ops := by
+theorem allSafeB_sound [DecidableEq α] (E : Elem α) : ∀ (ops : List (Op α)) (st : St α),
+    allSafeB E st ops = true → AllSafe E st ops := by
   intro ops
   induction ops with
-  | nil => intro st sp _; trivial
+  | nil => intro st _; trivial
   | cons op ops ih =>
-    intro st sp h
+    intro st h
     simp only [allSafeB, Bool.and_eq_true, Bool.not_eq_eq_eq_not, Bool.not_true] at h
-    obtain ⟨⟨h1, h2⟩, h3⟩ := h
-    refine ⟨h1, ?_, ?_⟩
-    · unfold SortOK; split
-      · rename_i hs; rw [hs] at h2; cases h2
-      · trivial
-    · cases hs : step E st (normOp op) with
-      | none => trivial
-      | some r => rw [hs] at h3; exact ih _ _ h3
+    obtain ⟨h1, h3⟩ := h
+    refine ⟨h1, ?_⟩
+    cases hs : step E st (normOp op) with
+    | none => trivial
+    | some r => rw [hs] at h3; exact ih _ h3
 
 /-- the hypothesis is satisfiable by a history with sharing, growth across 3 → 6, a self-referential insert,
-a clone and a removal -/
-example : AllSafe intE St.init Sp.init
-    [.new 0, .app 0 1, .app 0 2, .app 0 3, .inso 0 1 2, .cp 1 0, .rem 1 0 1, .clone 2 0, .apnd 2 2, .drop 0] :=
-  allSafeB_sound intE _ _ _ (by decide)
+a sort, a clone and a removal -/
+example : AllSafe intE St.init
+    [.new 0, .app 0 3, .app 0 1, .app 0 2, .inso 0 1 2, .cp 1 0, .sort 1 false, .rem 1 0 1, .clone 2 0, .apnd 2 2, .drop 0] :=
+  allSafeB_sound intE _ _ (by decide)
 
 /-! ## lifecycle -/
 
@@ -128,11 +128,12 @@ example : AllSafe intE St.init Sp.init
 (constructor calls minus destructor calls) is the total length of the live blocks, every live block is
 referenced by as many handles as its `rc` says (at least one), and when the last handle is gone no block and
 no element object is left. -/
-theorem lifecycle [DecidableEq α] (E : Elem α) (ops : List (Op α)) (hsafe : AllSafe E St.init Sp.init ops) :
+theorem lifecycle [DecidableEq α] (E : Elem α) (hirr : ∀ x, E.lt x x = false) (ops : List (Op α))
+    (hsafe : AllSafe E St.init ops) :
     ∃ st' outs, run E St.init ops = some (st', outs) ∧ st'.live = sumN st'.blocks ∧
       (∀ (b : Nat) (r : Raw α), st'.blocks[b]? = some (some r) → r.rc = st'.hs.count (some b) ∧ 0 < r.rc) ∧
       ((∀ slot, st'.occ slot = false) → st'.live = 0 ∧ ∀ (b : Nat) (r : Raw α), st'.blocks[b]? ≠ some (some r)) := by
-  obtain ⟨st', hrun, hg⟩ := array_refines_seq_partial E ops hsafe
+  obtain ⟨st', hrun, hg⟩ := array_refines_seq_partial E hirr ops hsafe
   obtain ⟨f, hf⟩ := hg.sim
   have hblk : ∀ (b : Nat) (r : Raw α), st'.blocks[b]? = some (some r) → r.rc = st'.hs.count (some b) ∧ 0 < r.rc := by
     intro b r hb
@@ -151,16 +152,23 @@ theorem lifecycle [DecidableEq α] (E : Elem α) (ops : List (Op α)) (hsafe : A
 
 /-! ## `sort()` : the Hoare-partition quicksort of foreach1.h -/
 
-/-- the full statement about `sort`: for a strict total order the transcribed quicksort never indexes outside
-the sequence, ends within its fuel, and returns the sorted sequence (`isort` = insertion sort, the reference) -/
+/-- **`sort` is memory-safe and terminates**: for every irreflexive `<` and every sequence the transcribed quicksort
+(each read a checked `xs[i]?`, each loop with fuel) never indexes outside the sequence — not even at `a - 1`, where
+the C++ pointer `r` may point but is not dereferenced — and ends within its fuel.  This is what removes any
+hypothesis about `sort` from `array_refines_seq_partial`. -/
+theorem quicksort_total (lt : α → α → Bool) (hirr : ∀ x, lt x x = false) (l : List α) :
+    (qsortList lt l).isSome = true := qsortList_total lt hirr l
+
+/-- the full statement about the *value* of `sort`: for a strict total order the transcribed quicksort returns the
+sorted sequence (`isort` = insertion sort, the reference) -/
 def quicksort_full : Prop :=
   ∀ (β : Type) (lt : β → β → Bool),
     (∀ a, lt a a = false) → (∀ a b c, lt a b = true → lt b c = true → lt a c = true) →
     (∀ a b, lt a b = true ∨ a = b ∨ lt b a = true) →
     ∀ l : List β, qsortList lt l = some (isort lt l)
 
-/-- proved part 1: whenever the quicksort ends without leaving the sequence, its result is a permutation of
-the input of the same length (for any comparison function whatsoever) -/
+/-- proved part 1: the result of the quicksort is a permutation of the input of the same length (for any
+comparison function whatsoever) -/
 theorem quicksort_perm_partial [DecidableEq α] (lt : α → α → Bool) (l l' : List α) (h : qsortList lt l = some l') :
     l'.Perm l ∧ l'.length = l.length :=
   ⟨qsortList_perm lt h, qsortList_length lt h⟩
